@@ -165,6 +165,8 @@ type gen struct {
 	uniq   int64
 	floor  int
 	blind  bool // a random-strategy send was issued: the model cannot follow the state any more
+	locked bool // the wallet is (believed) locked: requests are refused, nothing changes
+	timed  bool // an unlock timeout is armed
 }
 
 var kinds = []string{"pkh", "np", "wpkh", "tr"}
@@ -199,6 +201,7 @@ func (g *gen) start() {
 	g.tip = baseHeight
 	g.floor = baseHeight + 1
 	g.blind = false
+	g.locked, g.timed = false, false
 }
 
 func (g *gen) unconfirmAbove(tip int) {
@@ -452,6 +455,10 @@ func (g *gen) randomCreate(final bool) {
 		g.tag("send-" + cls)
 		parents := g.allParents()
 		name := g.create(o)
+		if g.locked {
+			g.tag("create-while-locked")
+			return
+		}
 		if cls == "accepted" || cls == "mempool" {
 			// approximate: the largest coins are used
 			sort.Slice(avail, func(i, j int) bool { return avail[i].amt > avail[j].amt })
@@ -481,9 +488,46 @@ func (g *gen) randomCreate(final bool) {
 	}
 	parents := g.allParents()
 	name := g.create(o)
+	if g.locked {
+		g.tag("create-while-locked")
+		return
+	}
 	if o.api == "simple" {
 		g.txs = append(g.txs, &gtx{name: name, simple: true, parents: parents})
 	}
+}
+
+// walletLock: Wallet.Lock / Unlock (optionally with a timeout) / the timeout firing / an Unlock with a wrong passphrase
+func (g *gen) walletLock() {
+	switch x := g.rng.Intn(10); {
+	case g.locked && x < 7:
+		if g.rng.Intn(3) == 0 {
+			g.add("wunlock timed=1")
+			g.timed = true
+		} else {
+			g.add("wunlock")
+			g.timed = false
+		}
+		g.locked = false
+	case x < 4:
+		g.add("wlock")
+		g.locked, g.timed = true, false
+	case x < 6:
+		g.add("wunlock timed=1")
+		g.locked, g.timed = false, true
+	case x < 8:
+		g.add("wexpire")
+		if g.timed {
+			g.locked, g.timed = true, false
+		}
+	case x < 9:
+		g.add("wunlock pass=bad")
+		g.locked = true
+	default:
+		g.add("wunlock")
+		g.locked, g.timed = false, false
+	}
+	g.tag("wallet-lock-ops")
 }
 
 func (g *gen) randomPublish() {
@@ -536,6 +580,10 @@ func (g *gen) resync(restart bool) {
 	op := "resync"
 	if restart {
 		op = "restart"
+		g.locked, g.timed = false, false // the harness unlocks a freshly opened wallet
+	} else if g.rng.Intn(4) == 0 {
+		op = "resync twice=1"
+		g.tag("resync-twice")
 	}
 	if len(parts) > 0 {
 		op += " ans=" + strings.Join(parts, ";")
@@ -553,7 +601,17 @@ func (g *gen) randomWalk(n int) core.Case {
 	}
 	g.mineSome(0.9, g.rng.Intn(3) == 0)
 	for i := 0; i < n; i++ {
-		switch x := g.rng.Intn(100); {
+		x := g.rng.Intn(100)
+		if g.locked {
+			// a locked wallet is interesting for requests; do not stay locked for long
+			switch y := g.rng.Intn(10); {
+			case y < 5:
+				x = 60
+			case y < 8:
+				x = 49
+			}
+		}
+		switch {
 		case x < 12:
 			var ins []string
 			if g.rng.Intn(8) == 0 && len(g.coins) > 0 {
@@ -597,11 +655,13 @@ func (g *gen) randomWalk(n int) core.Case {
 			}
 		case x < 48:
 			g.add(fmt.Sprintf("clock adv=%d", []int{0, 1, 59, 60, 600}[g.rng.Intn(5)]))
-		case x < 78:
+		case x < 52:
+			g.walletLock()
+		case x < 80:
 			g.randomCreate(i == n-1)
-		case x < 90:
+		case x < 91:
 			g.randomPublish()
-		case x < 95:
+		case x < 96:
 			g.resync(false)
 		case x < 98:
 			g.resync(true)
@@ -903,6 +963,201 @@ func (g *gen) scenChangeless() core.Case {
 	return g.finish("changeless")
 }
 
+// ---- round-2 scenarios -------------------------------------------------------------------------------------------
+
+func (g *gen) fundAcct0(n int) (string, []int64) {
+	name := g.newName()
+	var specs []string
+	var amts []int64
+	for i := 0; i < n; i++ {
+		k, v := g.kind(), g.amount(150000, 900000)
+		specs = append(specs, fmt.Sprintf("%s:0:%d", k, v))
+		amts = append(amts, v)
+		g.coins = append(g.coins, &gcoin{name: fmt.Sprintf("%s:%d", name, i), amt: v, kind: k, acct: 0, tx: name})
+	}
+	g.txs = append(g.txs, &gtx{name: name})
+	g.add(fmt.Sprintf("recv tx=%s outs=%s", name, strings.Join(specs, ",")))
+	return name, amts
+}
+
+// requests of every kind issued while the wallet is locked (explicit Lock, expired unlock timeout, Unlock with a
+// wrong passphrase): refused, or - for a regular account - fully signed (seed C06-5)
+func (g *gen) scenLockedWallet() core.Case {
+	g.start()
+	a, amts := g.fundAcct0(3)
+	g.add("block txs=" + a)
+	how := g.rng.Intn(4)
+	switch how {
+	case 0:
+		g.add("wlock")
+	case 1:
+		g.add("wunlock timed=1")
+		g.simpleCreate("dry", 0, "any", 1, amts[0]/3, nil)
+		g.add("wexpire")
+	case 2:
+		g.add("wunlock pass=bad")
+	default:
+		g.add("wunlock timed=1")
+		g.add("wunlock timed=1") // replaces the first timeout
+		g.add("wexpire")
+	}
+	g.tag(fmt.Sprintf("locked-how%d", how))
+	g.add("state")
+	total := amts[0] + amts[1] + amts[2]
+	apis := []string{"simple", "send", "dry", "psbt"}
+	g.rng.Shuffle(len(apis), func(i, j int) { apis[i], apis[j] = apis[j], apis[i] })
+	for _, api := range apis {
+		g.simpleCreate(api, 0, "any", 1, total/2+g.rng.Int63n(1000), nil) // needs two coins, mixed address types
+		g.simpleCreate(api, 0, "any", 1, amts[1]/2, []string{a + ":1"})
+	}
+	g.create(createOpt{api: "send", acct: 0, scope: "any", chg: "same", minconf: 1, rate: 1000, strat: "largest",
+		outs: []string{"xwpkh:120"}, ans: "ok"}) // dust is diagnosed before the lock state
+	g.create(createOpt{api: "simple", acct: 0, scope: g.kind(), chg: "same", minconf: 0, rate: 2500, strat: "largest",
+		outs: []string{fmt.Sprintf("xtr:%d", amts[2]/4)}})
+	g.add("state")
+	if g.rng.Intn(2) == 0 {
+		g.add("wexpire") // nothing armed any more
+	}
+	timed := g.rng.Intn(2) == 0
+	if timed {
+		g.add("wunlock timed=1")
+	} else {
+		g.add("wunlock")
+	}
+	s := g.simpleCreate("send", 0, "any", 1, total/2, nil)
+	g.add("state")
+	if timed {
+		g.add("wexpire")
+	} else {
+		g.add("wlock")
+	}
+	g.simpleCreate([]string{"simple", "send"}[g.rng.Intn(2)], 0, "any", 0, amts[2]/5, []string{s + ":c"})
+	g.simpleCreate("simple", 0, "any", 0, amts[2]/5, nil)
+	if g.rng.Intn(2) == 0 {
+		g.add("restart") // a freshly opened wallet is unlocked by the harness
+		g.simpleCreate("simple", 0, "any", 0, amts[2]/5, nil)
+	}
+	g.add("state")
+	return g.finish("locked-wallet")
+}
+
+// the NotifyReceived call of a send fails; whatever the backend had accepted by then stays published, so later
+// requests must not reuse its inputs (seed C06-4); on the unchanged tree nothing was handed over and the coins are free
+func (g *gen) scenNotifyFailSend() core.Case {
+	g.start()
+	a, amts := g.fundAcct0(2 + g.rng.Intn(2))
+	g.add("block txs=" + a)
+	g.add("state")
+	cls := []string{"accepted", "accepted", "mempool", "rejected"}[g.rng.Intn(4)]
+	var sel []string
+	if g.rng.Intn(3) == 0 {
+		sel = []string{a + ":0"}
+	}
+	g.create(createOpt{api: "send", acct: 0, scope: "any", chg: "same", minconf: 1, rate: 1000, strat: "largest",
+		outs: []string{fmt.Sprintf("xwpkh:%d", amts[0]/3)}, sel: sel, ans: g.ans.pick(g.rng, cls), notify: "fail"})
+	g.tag("send-notifyfail-" + cls)
+	g.add("state")
+	g.simpleCreate("dry", 0, "any", 1, amts[0]/3, sel)
+	g.simpleCreate([]string{"simple", "psbt"}[g.rng.Intn(2)], 0, "any", 1, amts[0]/4, nil)
+	s := g.simpleCreate("send", 0, "any", 1, amts[0]/3, sel)
+	g.add("state")
+	if g.rng.Intn(2) == 0 {
+		g.add("block txs=" + s)
+	}
+	g.add([]string{"resync", "restart", "resync twice=1"}[g.rng.Intn(3)])
+	g.simpleCreate("send", 0, "any", 0, amts[1]/3, nil)
+	g.add("state")
+	return g.finish("notifyfail-send")
+}
+
+// automatic coin selection that needs a second pass of the author loop: the largest coin covers outputs + the first
+// fee estimate (no inputs) but not the fee for its own input, so the source is asked again with a raised target and
+// the NEXT coin is needed (seed C07-4)
+func (g *gen) scenSecondPass() core.Case {
+	g.start()
+	k := int64([]int{1, 1, 2, 5}[g.rng.Intn(4)])
+	rate := 10000 * k
+	kA, kB := g.kind(), g.kind()
+	A := g.amount(200000, 900000)
+	B := g.amount(40000, 150000)
+	name := g.newName()
+	outs := fmt.Sprintf("%s:0:%d,%s:0:%d", kA, A, kB, B)
+	three := g.rng.Intn(3) == 0
+	if three {
+		outs += fmt.Sprintf(",%s:0:%d", g.kind(), 20+g.rng.Intn(40)) // far too small to help
+	}
+	g.add(fmt.Sprintf("recv tx=%s outs=%s", name, outs))
+	g.add("block txs=" + name)
+	// fee without inputs = 84 vB (one P2WPKH output + P2TR change); with one input at least 143 vB
+	x := A - 130*k*10
+	api := []string{"dry", "simple", "psbt", "send"}[g.rng.Intn(4)]
+	strat := "largest"
+	if !three && api != "simple" && g.rng.Intn(4) == 0 {
+		strat = "random"
+		g.tag("random-strategy")
+	}
+	g.create(createOpt{api: api, acct: 0, scope: "any", chg: "same", minconf: 1, rate: rate, strat: strat,
+		outs: []string{fmt.Sprintf("xwpkh:%d", x)}, ans: "ok"})
+	g.tag("second-pass-" + kA)
+	if strat == "largest" {
+		g.add("state")
+		// and once more with what is left / with everything (dry): first pass enough
+		g.simpleCreate("dry", 0, "any", 1, B/3, nil)
+	}
+	return g.finish("second-pass")
+}
+
+// a re-publish of a transaction the wallet already tracks (with a child) fails at the subscription step (seed C20-4)
+func (g *gen) scenRepublishTracked() core.Case {
+	g.start()
+	a, amts := g.fundAcct0(1)
+	g.add("block txs=" + a)
+	p := g.simpleCreate("send", 0, "any", 1, amts[0]/3, []string{a + ":0"})
+	c := g.simpleCreate("send", 0, "any", 0, amts[0]/9, []string{p + ":c"})
+	_ = c
+	if g.rng.Intn(2) == 0 {
+		g.recv(1, []string{p + ":0"})
+	}
+	g.add("state")
+	g.add(fmt.Sprintf("publish name=%s ans=%s notify=fail", p, g.ans.pick(g.rng, g.ans.randomClass(g.rng))))
+	g.add("state")
+	g.simpleCreate("dry", 0, "any", 0, amts[0]/2, nil)
+	g.add("resync")
+	g.add("state")
+	return g.finish("republish-tracked-notifyfail")
+}
+
+// two resynchronisations, the second finishing while the re-broadcast of the first is still waiting for the backend
+// (seed C20-5)
+func (g *gen) scenDoubleResync() core.Case {
+	g.start()
+	a, amts := g.fundAcct0(2)
+	if g.rng.Intn(2) == 0 {
+		g.add("block txs=" + a)
+	}
+	p := g.simpleCreate("send", 0, "any", 0, amts[0]/3, []string{a + ":0"})
+	var all []string
+	all = append(all, p)
+	if g.rng.Intn(2) == 0 {
+		all = append(all, g.simpleCreate("send", 0, "any", 0, amts[0]/9, []string{p + ":c"}))
+	}
+	if g.rng.Intn(2) == 0 {
+		all = append(all, g.simpleCreate("send", 0, "any", 0, amts[1]/3, []string{a + ":1"}))
+	}
+	g.add("state")
+	op := "resync twice=1"
+	if g.rng.Intn(2) == 0 {
+		cls := g.ans.randomClass(g.rng)
+		op += fmt.Sprintf(" ans=%s@%s", all[g.rng.Intn(len(all))], g.ans.pick(g.rng, cls))
+		g.tag("double-resync-" + cls)
+	}
+	g.add(op)
+	g.add("state")
+	g.add("resync")
+	g.add("state")
+	return g.finish("double-resync")
+}
+
 // ---- exhaustive small-scope enumerations (thorough tier) ----------------------------------------------------------
 
 // every explicit selection of length 1 and 2 (incl. repeats) over a fixed 8-coin universe in which each coin fails a
@@ -1034,7 +1289,8 @@ func (engine) Generate(rng *rand.Rand, tier string) []core.Case {
 	var cases []core.Case
 	for i := 0; i < nScen; i++ {
 		cases = append(cases, g.scenCoinbase(), g.scenLocks(), g.scenSelection(), g.scenChain(), g.scenAnswers(),
-			g.scenReorg(), g.scenDoubleSpend(), g.scenChangeless())
+			g.scenReorg(), g.scenDoubleSpend(), g.scenChangeless(),
+			g.scenLockedWallet(), g.scenNotifyFailSend(), g.scenSecondPass(), g.scenRepublishTracked(), g.scenDoubleResync())
 	}
 	if tier == "thorough" {
 		cases = append(cases, g.enumSelections()...)
@@ -1045,6 +1301,7 @@ func (engine) Generate(rng *rand.Rand, tier string) []core.Case {
 	}
 	// malformed stream
 	cases = append(cases, core.Case{Ops: []string{"reset", "frobnicate", "create name=T1", "publish name=T9 ans=ok",
-		"block txs=T4", "reorg depth=9", "lease op=T1:0 id=1 dur=5", "release op=T1:0 id=1", "tipahead n=0", "state"}, Tags: []string{"malformed"}})
+		"block txs=T4", "reorg depth=9", "lease op=T1:0 id=1 dur=5", "release op=T1:0 id=1", "tipahead n=0", "wexpire", "wlock x=1",
+		"wunlock timed=2", "resync twice=2", "restart twice=1", "state"}, Tags: []string{"malformed"}})
 	return cases
 }
